@@ -19,12 +19,20 @@
                             with different blanks / line breaks are the same score for `eval`, for
                             "does the target occur in the expression" and for the emitted commands.
 
+     C02_context_execute / C02_partial_in_context / C02_context_return / C02_partial_return /
+     C02_chain_copy / C02_partial_chained   the statement in a position that takes ONE command
+                            (`execute if score … run S;`, `return run S;`, `$o = S;`): all commands of the
+                            lowering run iff the tests of the prefix hold, nothing happens otherwise
+                            (Model/ExprCtx.v: the placement repaired by fixes/C02-10, C02-11; the placement of the
+                            tree before them is refuted by C02_context_unwrapped_refuted / C02_chain_unwrapped_refuted).
+
    The full statement for all expressions is still false in one way: `**` accepts only a constant,
    non-negative exponent (C02_refuted_pow_nonconst). *)
 From Coq Require Import ZArith String List Bool.
 From JMCV Require Import Base.Int32 Base.Dec MC.Syntax MC.Sem MC.Print Model.Names Model.VarOp Proofs.VarOp
      Model.Expr Model.ExprSpec Model.ExprFront Model.ExprBack
-     Proofs.ExprLower Proofs.ExprRefute Proofs.ExprParse Proofs.ExprOps Proofs.ExprOpt Proofs.ExprClean Proofs.ExprSmall Proofs.ExprSpell.
+     Model.ExprCtx Proofs.ExprLower Proofs.ExprRefute Proofs.ExprParse Proofs.ExprOps Proofs.ExprOpt Proofs.ExprClean Proofs.ExprSmall Proofs.ExprSpell
+     Proofs.ExprCtx.
 Import ListNotations.
 Open Scope Z_scope.
 
@@ -178,6 +186,179 @@ Example C02_spelling_example :
   expected w_spell = Some 13 /\ holds_b w_spell = true.
 Proof. exact spell_example. Qed.
 Print Assumptions C02_spelling_example.
+
+(* ------------------------------------------------------------------ the statement in a one-command position *)
+(* `execute if score … [unless score …] run <statement>;`   (Model.ExprCtx.wrap_under, tied to
+   FuncContent.__handle_startswith_var by the correspondence on statements placed behind generated prefixes.)
+   For EVERY list of commands `cmds` (the lowering of a statement: any length, 0 and 1 included), every list
+   g of `if` / `unless` score tests, every function table in which the private function created by the
+   placement (if any) is registered, every state:
+     - if a test of g fails, the placed command changes NOTHING (state identical, the command fails);
+     - if all hold, the placed command terminates exactly when running all of `cmds` terminates, in the
+       same state.
+   (`cmds` of one command: that command under the tests; otherwise ONE call of a function holding all of them.) *)
+Theorem C02_context_execute :
+  forall ft env nm g count cmds c defs,
+    wrap_under nm g count cmds = (c, defs) ->
+    (forall d, In d defs -> ft (fst d) = Some (snd d)) ->
+    forall st,
+      (guard_holds st g = false -> forall fuel, exec ft env (S fuel) no_menv c st = Some (st, r_fail)) /\
+      (guard_holds st g = true -> forall st',
+         (exists fuel r, exec ft env fuel no_menv c st = Some (st', r)) <->
+         (exists fuel, exec_list ft env fuel cmds st = Some st')).
+Proof. exact context_execute. Qed.
+Print Assumptions C02_context_execute.
+
+(* C02_partial for a statement behind `execute <tests> run`: with the hypotheses of C02_partial and
+   well-formed tests, the ONE command standing in the function (and the private function, if one is made)
+   is well-formed, terminates, and
+     - if every test holds in the state BEFORE the statement: the conclusion of C02_partial (target =
+       `old <form> value of e` on the old scores, every other non-scratch score, storage, trace unchanged);
+     - otherwise the state is unchanged altogether. *)
+Theorem C02_partial_in_context :
+  forall ft env nm target form e g count,
+    let out := score_of nm target in
+    arith e = true -> form <> PPow ->
+    (forall n, out <> temp_score nm n) ->
+    (forall s n, In s (evars nm e) -> s <> temp_score nm n) ->
+    snd out <> int_name nm -> var_name nm <> int_name nm ->
+    forallb (fun p => wf_test (snd p)) g = true ->
+    exists cmds ints c defs,
+      compile_expr nm out form e = (Ok (cmds, ints), []) /\
+      wrap_under nm g count cmds = (c, defs) /\
+      wf_cmd c && forallb (fun d => forallb wf_cmd (snd d)) defs && forallb wf_cmd (load_ints nm ints) = true /\
+      forall st all, (forall d, In d defs -> ft (fst d) = Some (snd d)) ->
+        int32_state st -> loaded nm st all -> (forall z, In z ints -> In z all) ->
+        exists st' r, exec ft env 3 no_menv c st = Some (st', r) /\
+          if guard_holds st g then
+            (forall v w, eval nm (rd (sc st)) e = Some v -> form_sem form (rd (sc st) out) v = Some w ->
+                         rd (sc st') out = w) /\
+            (forall s, s <> out -> (forall n, s <> temp_score nm n) -> rd (sc st') s = rd (sc st) s) /\
+            stg st' = stg st /\ tr st' = tr st
+          else st' = st.
+Proof. exact partial_in_context. Qed.
+Print Assumptions C02_partial_in_context.
+
+(* The tree before fixes/C02-10 put the prefix in front of the FIRST line only (Model.ExprCtx.naive_under).
+   `execute if score $c __variable__ matches 1.. run $x := $a * $b + 1;` from c = 0, a = 2, b = 3, x = 0:
+   the test fails, yet lines two and three run and leave x = 0 * 3 + 1 = 1. *)
+Theorem C02_context_unwrapped_refuted :
+  exists cmds ints st',
+    model_run w_ctx = (Ok (cmds, ints), []) /\ length cmds = 3%nat /\
+    guard_holds (w_state w_ctx ints) g_ctx = false /\
+    exec_list no_ft no_env 2 (naive_under g_ctx cmds) (w_state w_ctx ints) = Some st' /\
+    sc (w_state w_ctx ints) (w_score w_ctx) = Some 0 /\ sc st' (w_score w_ctx) = Some 1.
+Proof. exact naive_under_refuted. Qed.
+Print Assumptions C02_context_unwrapped_refuted.
+
+(* non-vacuity: the repaired placement of that statement is
+   `execute if score $c __variable__ matches 1.. run function TEST:__private__/anonymous/0`
+   and from the same state it changes nothing *)
+Example C02_context_example :
+  exists cmds ints c defs,
+    model_run w_ctx = (Ok (cmds, ints), []) /\ wrap_under nm0 g_ctx 0 cmds = (c, defs) /\
+    pr_cmd c = "execute if score $c __variable__ matches 1.. run function TEST:__private__/anonymous/0"%string /\
+    map fst defs = ["TEST:__private__/anonymous/0"%string] /\
+    forall ft env, (forall d, In d defs -> ft (fst d) = Some (snd d)) ->
+      exec ft env 3 no_menv c (w_state w_ctx ints) = Some (w_state w_ctx ints, r_fail).
+Proof. exact wrap_under_witness. Qed.
+Print Assumptions C02_context_example.
+
+(* `return run <statement>;` and `execute <tests> run return run <statement>;`  (Model.ExprCtx.place with
+   k_ret = true; `xrun` = MC.Sem + "return run C leaves the function with C's result").  `body` = the
+   statement's commands (after the copies of a chained assignment).  The placement is ONE line; for every
+   function table of returning functions holding the private function (if any), all following lines `rest`
+   and every state:
+     - a test of the prefix fails: the line is skipped, the function goes on with `rest`;
+     - otherwise ALL commands of the body run, the function is left — `rest` does not run — and the value
+       returned is the result of the body's LAST command (a body without commands returns failure). *)
+Theorem C02_context_return :
+  forall ft env xft nm g chain count out cmds lines defs,
+    place nm (mkCtx g true chain) count out cmds = (lines, defs) ->
+    (forall d, In d defs -> xft (fst d) = Some (snd d)) ->
+    let body := chain_all chain out cmds in
+    forallb no_call body = true ->
+    forall rest st,
+      (guard_holds st g = false -> forall m, xrun ft env xft (S m) (lines ++ rest) st = xrun ft env xft m rest st) /\
+      (guard_holds st g = true ->
+         (body = [] -> forall m, (2 <= m)%nat -> xrun ft env xft m (lines ++ rest) st = Some (Returned st r_fail)) /\
+         (forall fuel st1 st' r,
+            body <> [] ->
+            exec_list ft env fuel (removelast body) st = Some st1 ->
+            exec ft env fuel no_menv (last body (COther "")) st1 = Some (st', r) ->
+            forall m, (length body + fuel + 2 <= m)%nat ->
+                      xrun ft env xft m (lines ++ rest) st = Some (Returned st' r))).
+Proof. exact context_return. Qed.
+Print Assumptions C02_context_return.
+
+(* C02_partial behind `[execute <tests> run] return run`: if the tests hold the function returns in a state
+   that satisfies the conclusion of C02_partial (whatever follows the statement does not run); otherwise the
+   function goes on with the following lines from the unchanged state. *)
+Theorem C02_partial_return :
+  forall ft env xft nm target form e g count,
+    let out := score_of nm target in
+    arith e = true -> form <> PPow ->
+    (forall n, out <> temp_score nm n) ->
+    (forall s n, In s (evars nm e) -> s <> temp_score nm n) ->
+    snd out <> int_name nm -> var_name nm <> int_name nm ->
+    exists cmds ints lines defs,
+      compile_expr nm out form e = (Ok (cmds, ints), []) /\
+      place nm (mkCtx g true []) count out cmds = (lines, defs) /\
+      forall rest st all, (forall d, In d defs -> xft (fst d) = Some (snd d)) ->
+        int32_state st -> loaded nm st all -> (forall z, In z ints -> In z all) ->
+        if guard_holds st g then
+          exists st' r, (forall m, (length cmds + 3 <= m)%nat ->
+                                   xrun ft env xft m (lines ++ rest) st = Some (Returned st' r)) /\
+            (forall v w, eval nm (rd (sc st)) e = Some v -> form_sem form (rd (sc st) out) v = Some w ->
+                         rd (sc st') out = w) /\
+            (forall s, s <> out -> (forall n, s <> temp_score nm n) -> rd (sc st') s = rd (sc st) s) /\
+            stg st' = stg st /\ tr st' = tr st
+        else forall m, xrun ft env xft (S m) (lines ++ rest) st = xrun ft env xft m rest st.
+Proof. exact partial_return. Qed.
+Print Assumptions C02_partial_return.
+
+(* Chained assignment `$o = <statement>;` whose inner statement is not exactly one command
+   (Model.ExprCtx.chain_stmt, fixes/C02-11): the inner commands run, then the inner target is copied.
+   For EVERY command list: the outer target ends with the value the inner target ends with, nothing else
+   changes with respect to the state the inner statement leaves. *)
+Theorem C02_chain_copy :
+  forall ft env fuel cmds o out st st',
+    exec_list ft env (S fuel) cmds st = Some st' ->
+    exists st'', exec_list ft env (S fuel) (cmds ++ [COp o OAssign out]) st = Some st'' /\
+      rd (sc st'') o = rd (sc st') out /\ (forall s, s <> o -> rd (sc st'') s = rd (sc st') s) /\
+      stg st'' = stg st' /\ tr st'' = tr st'.
+Proof. exact chain_copy. Qed.
+Print Assumptions C02_chain_copy.
+
+(* … hence, on the fragment of C02_partial: both targets end with `old <form> value of e`. *)
+Theorem C02_partial_chained :
+  forall ft env nm target form e o,
+    let out := score_of nm target in
+    arith e = true -> form <> PPow ->
+    (forall n, out <> temp_score nm n) ->
+    (forall s n, In s (evars nm e) -> s <> temp_score nm n) ->
+    snd out <> int_name nm -> var_name nm <> int_name nm ->
+    exists cmds ints,
+      compile_expr nm out form e = (Ok (cmds, ints), []) /\
+      (length cmds <> 1%nat -> chain_stmt o out cmds = (cmds ++ [COp o OAssign out])%list) /\
+      forall st all, int32_state st -> loaded nm st all -> (forall z, In z ints -> In z all) ->
+        exists st', exec_list ft env 1 (cmds ++ [COp o OAssign out]) st = Some st' /\
+          (forall v w, eval nm (rd (sc st)) e = Some v -> form_sem form (rd (sc st) out) v = Some w ->
+                       rd (sc st') out = w /\ rd (sc st') o = w) /\
+          (forall s, s <> out -> s <> o -> (forall n, s <> temp_score nm n) -> rd (sc st') s = rd (sc st) s) /\
+          stg st' = stg st /\ tr st' = tr st.
+Proof. exact partial_chained. Qed.
+Print Assumptions C02_partial_chained.
+
+(* The tree before fixes/C02-11 put `execute store result score $o … run` in front of the first line only:
+   `$o = $x := $a * $b + 1;` from a = 2, b = 3 leaves $o = 2 (the result of `$x = $a`) while $x = 7. *)
+Theorem C02_chain_unwrapped_refuted :
+  exists cmds ints st',
+    model_run w_ctx = (Ok (cmds, ints), []) /\
+    exec_list no_ft no_env 2 (naive_chain so cmds) (w_state w_ctx ints) = Some st' /\
+    sc st' (w_score w_ctx) = Some 7 /\ sc st' so = Some 2.
+Proof. exact naive_chain_refuted. Qed.
+Print Assumptions C02_chain_unwrapped_refuted.
 
 (* ------------------------------------------------------------------ what is still false *)
 (* `violates w t` (Proofs/ExprRefute.v): the statement w, compiled by the model, fires tag t and
